@@ -200,6 +200,14 @@ Definition exit_code (c : cmd) (w : world) : N :=
 
 Definition run (cmds : list cmd) (w : world) : world := fold_left (fun w c => exec c w) cmds w.
 
+(* CRASH POINTS INSIDE BACKUP (process death: SIGKILL, OOM, extension time-out).  `backup` is four
+   fs::copy calls; the tool can die between any two of them -- [backup_crash j]: the first j copies
+   are complete -- or inside one, which leaves the copy's destination created but empty, filled but
+   with the creation mode, or complete -- [inflight l f]: an arbitrary file f sits at the destination
+   l of the copy in progress. *)
+Definition backup_crash (j : nat) (w : world) : world := run_ops (firstn j backup_ops) (banner Backup w).
+Definition inflight (l : loc) (f : file) (w : world) : world := set_fs (fs_set l f (wfs w)) w.
+
 (* what a command appended to the call / write log *)
 Definition step_events (c : cmd) (w : world) : list event := wlog (exec c (clear_log w)).
 Definition history_events (cmds : list cmd) (w : world) : list event := wlog (run cmds (clear_log w)).
@@ -215,6 +223,8 @@ Definition four_present (w : world) : bool := forallb (fun l => fs_has l (wfs w)
    the newer files stay and the service stays stopped. *)
 Definition KnownClass_C17_agent_not_runnable (w : world) : bool :=
   four_present w && negb (version_ok SysExe w).
+(* no backup entry at the four computed backup locations *)
+Definition no_backup (w : world) : bool := forallb (fun l => negb (fs_has l (wfs w))) bak_locs.
 (* a complete package sits beside the tool *)
 Definition package_complete (w : world) : bool :=
   forallb (fun l => fs_has l (wfs w)) pkg_locs && version_ok PkgExe w.
@@ -311,3 +321,10 @@ Definition run_scenario (files : list (loc * file)) (extra_watch : list loc) (ru
     (cmds : list (cmd * list bool)) :=
   run_obs_ix standin_runnable (map snd files) (fixed_locs ++ extra_watch) cmds (mk_world files running enabled).
 
+
+(* the crash states of `backup` from a given tree, for the correspondence run: the four backup
+   locations after 0..4 completed copies *)
+Definition crash_scenario (files : list (loc * file)) : list (list (option N)) :=
+  let w := mk_world files true true in
+  map (fun j => fst (fst (observe_ix (map snd files) bak_locs (backup_crash standin_runnable never_fails j w))))
+      [0; 1; 2; 3; 4]%nat.
